@@ -511,9 +511,9 @@ EXPECTED_PROBES = {
     "C09": ["c09-anchor-checked", "c09-hostile-signatures:malformed", "c09-hostile-signatures:other-body", "validator-set-change"],
     "C10": ["c10-history-checked", "c10-quorum-round-checked", "c10-quorum-decided-round-checked", "c10-fame-decision-checked", "c10-fame-decision-across-set-change-checked", "validator-set-change"],
     "C11": ["shadow-bootstrap", "restart-bootstrap", "crash-inside-insertion", "crash-between-ancestor-updates", "shadow-continuation", "store-point"],
-    "C12": ["ff-refused", "ff-accepted", "ff-attempt-on-previously-adopted-pair", "ff-attempt:sigs-below-threshold-plus-strangers"],
+    "C12": ["ff-refused", "ff-accepted", "ff-attempt-on-previously-adopted-pair", "ff-attempt:sigs-below-threshold-plus-strangers", "ff-attempt:body-statehash-resigned-by-one-member"],
     "C13": ["fastforward-ok", "re-fast-forward", "c13-ff-history-checked"],
-    "C14": ["ff-attempt:forged-validator-set", "ff-forged-set-offered-again"],
+    "C14": ["ff-attempt:forged-validator-set", "ff-forged-set-offered-again", "ff-forged-set-after-forged-join-response"],
     "C15": ["c15-wire-roundtrip", "c15-block-json", "c15-frame-json", "c15-db-events-reloaded", "c15-frame-handover", "wire-rpc"],
     "C16": ["c16-ops-applied", "c16-reopens", "c16-restart-after-kill", "c16-reset-checked"],
     "C17": ["c17-runtime-suspend", "auto-suspended", "c17-suspended-sync-checked", "c17-leave-then-restart", "c17-maintenance-session-opened", "c17-maintenance-session-closed"],
